@@ -64,12 +64,14 @@ def newPrepared (t : Int) (data : Bytes) (keys : Bytes) (keyIdx : Nat) : Except 
 
 def prepKey (s : W) (pm : PM) : PKey := ⟨s.isServer, s.nego && s.enableWC && isData pm.t, s.level⟩
 
-/-- Conn.WritePreparedMessage. `env` = (image, full deflate stream) for a compressed key not yet cached. -/
-def writePrepared (s : W) (pm : PM) (env : Option (Bytes × Bytes)) : Option WErr × W × PM :=
+/-- Conn.WritePreparedMessage. `env` = (image, full deflate stream) for a compressed key not yet cached;
+    `dnp`, `fullp` = the flate answers for the implicit close of an open compressed writer (data messages). -/
+def writePrepared (s : W) (pm : PM) (env : Option (Bytes × Bytes)) (dnp : List Bytes := []) (fullp : Bytes := []) :
+    Option WErr × W × PM :=
   let k := prepKey s pm
   match pm.lookup k with
   | some img =>
-    let (e, s) := writePreparedImage s pm.t img
+    let (e, s) := writePreparedImage s pm.t img dnp fullp
     (e, s, pm)
   | none =>
     if k.compress then
@@ -80,7 +82,7 @@ def writePrepared (s : W) (pm : PM) (env : Option (Bytes × Bytes)) : Option WEr
           let nframes := match Spec.decodeStream img with | some fs => fs.length | none => 0
           let s := if k.isServer then s else { s with keyIdx := s.keyIdx + nframes }
           let pm := { pm with cache := pm.cache ++ [(k, img)] }
-          let (e, s) := writePreparedImage s pm.t img
+          let (e, s) := writePreparedImage s pm.t img dnp fullp
           (e, s, pm)
         else (some .deflateMismatch, s, pm)
     else
@@ -91,7 +93,7 @@ def writePrepared (s : W) (pm : PM) (env : Option (Bytes × Bytes)) : Option WEr
       | (none, img, ki) =>
         let s := { s with keyIdx := ki }
         let pm := { pm with cache := pm.cache ++ [(k, img)] }
-        let (e, s) := writePreparedImage s pm.t img
+        let (e, s) := writePreparedImage s pm.t img dnp fullp
         (e, s, pm)
 
 end WS
